@@ -6,19 +6,31 @@ from vlib import zlit
 
 PROP = 'C01'
 REQUIRES = ['Stim.Model', 'Stim.Spec']
-RULE = ('for every generator configuration of a catalogue (all carrier classes, gate, envelopes with 4 windows, SAM with '
+RULE = ('for every generator configuration of a catalogue (all carrier classes, gate, envelopes with 5 windows, SAM with '
         'on/off-grid delays, square-wave envelope with integer/half-integer/fractional periods, notch filter, repeat, depth-3 '
-        'compositions; thorough: + 40 random compositions per rate) at rates 1000 / 25000 / 44100 / 48828.125 / 195312.5 Hz: '
+        'compositions; thorough: + 40 random compositions per rate) and of an audit catalogue (every non-default constructor keyword, '
+        'integer-typed frequencies/levels, defaults left to the constructor, falsy values 0 / 0.0 / int 0 times / depth 0 / duty 0 and 1, '
+        'int16 / float32 / bool / read-only token arrays, empty and one-sample waveforms, wav files by str and Path with the three '
+        'normalisations, rounding ties x.5, pointwise envelope transform, repeat with off-grid period/delay, n = 0, infinite input) '
+        'at rates 1000 / 25000 / 44100 / 48828.125 / 195312.5 Hz: '
         'two-chunk histories (o, n) with o and o+n within +-2 of every boundary the parameters induce (quick: seeded sample of them; '
-        'thorough: all), plus random 2-7 chunk histories with resets; fragment functions envelope/_sam_envelope/square_wave at '
-        'the same windows. The model prints a symbolic recipe per sample; the harness evaluates it with one-shot elementary '
+        'thorough: all), random 2-7 chunk histories with resets, and histories with NumPy int32/int64 (and, where the stimulus reports '
+        'a float count itself, float) draw counts, zero-sample draws, queries in between, get_samples_remaining(), and the caller '
+        'overwriting every array it receives; the fragment functions envelope / cos2envelope / sam_envelope / _sam_envelope / '
+        'square_wave called positionally and by keyword, on- and off-grid, samples="auto", NumPy-typed offsets, offsets far past the '
+        'end, fragments at ==/-1/+1 of every segment boundary, and called twice with the caller writing into the first (memoised) '
+        'result; tone / sam_tone fragments and the seconds-based `duration` variant, the noise functions and ramped_tone against '
+        'their factory twins. The model prints a symbolic recipe per sample; the harness evaluates it with one-shot elementary '
         'functions and compares bit-exactly (FIR noise 1e-12). Non-trivial: at least two chunks and a non-carrier node or a noise/filter carrier.')
 TRUSTED = ['harness/stimcore.py (factory builder, recipe evaluator using one-shot carrier / scipy window / one-shot filter, decoder)',
            'per-index carriers (cos of an index), RandomState streams and scipy lfilter are oracles: their own chunk-invariance is '
            'what the oracle() tests directly (chunked == one-shot), not something the model proves']
 ASSUMPTIONS = ['times are passed as k/fs; the effective sample counts are computed with the code\'s own int(round(t*fs))',
                'square-wave envelope periods: float arithmetic of fs/fm is modelled as exact rational arithmetic of that double',
-               'WavSequenceFactory/load_wav are not modelled']
+               'WavSequenceFactory is not modelled and cannot produce a sample on the unchanged tree (fs is passed as the queue seed): '
+               'its cases are judged by the oracle only and are vacuous while both the chunked and the single request raise TypeError',
+               'sam_envelope(equalize=False) divides by zero for every fragment: oracle only (raises for the fragment iff for the whole)',
+               'noise factories with seed=None are not reproducible by design and are outside the property']
 FS = [1000.0, 25000.0, 44100.0, 48828.125, 195312.5]
 
 
@@ -444,7 +456,10 @@ def _gen_oracle(cfg, fs, ops, res):
     n = max(len(s) for s in segs)
     if n == 0:
         return None
-    one = np.asarray(sc.mk(cfg, fs).next(n), dtype=float)
+    try:
+        one = np.asarray(sc.mk(cfg, fs).next(n), dtype=float)
+    except ValueError as e:
+        return f'a single request for {n} samples raises ValueError ({e}) but the history {ops} returned samples'
     tol = 1e-12 * max(np.max(np.abs(one)), 1e-300) if sc.has_fir(cfg) else 0.0
     for s in segs:
         s = np.asarray(s, dtype=float)
